@@ -79,7 +79,7 @@ func RunOnce(prefix []int, paranoid bool, body Body) (res Exec) {
 			}
 		}()
 		synctest.Test(T, func(t *testing.T) {
-			s := &vsched.Sched{Prefix: prefix, Horizon: 20 * time.Minute, Paranoid: paranoid, MaxSteps: 20000}
+			s := &vsched.Sched{Prefix: prefix, Horizon: 90 * time.Minute, Paranoid: paranoid, MaxSteps: 20000}
 			vsched.S = s
 			var out Outcome
 			var mu sync.Mutex // real mutex: the hand-off of out must be visible to the race detector
